@@ -100,6 +100,8 @@ def _ops(other_grid):
     op("copy.deepcopy", lambda x: _copy.deepcopy(x), deep=True)
     # uxarray's own operations
     op("ux.isel(n_face=[0,1])", lambda x: x.isel(n_face=[0, 1]), ux_only=True)
+    op("ux.isel(n_face=[3])", lambda x: x.isel(n_face=[3]), ux_only=True)  # one face: a grid dimension of length one (squeeze, reductions, ... see it)
+    op("ux.isel(n_face=2)", lambda x: x.isel(n_face=2), ux_only=True)  # scalar indexer
     op("ux.isel(n_node=[2])", lambda x: x.isel(n_node=[2]), ux_only=True)
     op("ux.isel(n_edge=[1,3])", lambda x: x.isel(n_edge=[1, 3]), ux_only=True)
     op("ux.remap.nn(other,nodes)", lambda x: x.remap.nearest_neighbor(other_grid, remap_to="nodes"), ux_only=True)
